@@ -70,3 +70,18 @@ Proof. vm_compute. reflexivity. Qed.
 
 Print Assumptions C10_escape_leaves_no_bare_separator.
 Print Assumptions C10_escape_changes_nothing_else.
+
+(* hidden keys: when none of the value's own headings / external links renders an '=' (Template._has_unescapable_equals is false -
+   otherwise add() writes the key out), escaping leaves no '=' anywhere outside the brackets of a nested node: not in the text, not in
+   the markers of a heading, not inside a link - so the rendered value cannot be taken for "name=value" *)
+Theorem C10_hidden_key_value_has_no_exposed_equals : forall c ent, ~ In c ent ->
+  forall v, open_renders c v = false -> ~ In c (exposed (escape c ent v)).
+Proof. exact escape_hides_everywhere. Qed.
+
+Example C10_hidden_key_example :
+  let eq := 61%N in
+  open_renders eq [IText [97; 61]%N; IOpen [61; 61]%N [([IText [104]%N], [61; 61]%N)]] = true /\
+  open_renders eq [IText [97; 61]%N; IClosed [123; 61; 125]%N] = false.
+Proof. vm_compute. split; reflexivity. Qed.
+
+Print Assumptions C10_hidden_key_value_has_no_exposed_equals.
